@@ -1437,6 +1437,12 @@ fn replay_cases(cases: &[Case], out: &mut dyn Write) {
                     }
                 }
             }
+            Some("lpe") => {
+                let mut st = lp_stats();
+                for (class, detail) in replay_lp_case(c, &mut st) {
+                    writeln!(out, "FAIL {} :: case {}: {}", class, c.id, detail).unwrap();
+                }
+            }
             Some("frag") => {
                 let mut st = FragStats { instances: 0, fragments: 0, three_or_more: 0, reassembled: 0, incomplete: 0, nothing: 0, offload_runs: 0 };
                 for (class, detail) in replay_frag_case(c, &mut st) {
